@@ -16,6 +16,9 @@ Bind:  every case TLC emits is replayed into pydrex.tensors and compared with th
        invariant clauses are additionally measured on random real inputs through their defining
        equations and judged by TLC (TensorsMeasures).  The harness holds no formula of its own: index
        tables, weights, expected tensors, products R2.R1 and conditioning factors all come from TLC.
+Note:  the quantifier is "all real 3x3 matrices" and the stretch is "positive SEMI-definite", so the
+       polar cases include singular inputs (rank 0, 1, 2).  There the orthogonal factor is not unique
+       and only the defining equations and the (unique) stretch are judged.
 """
 import concurrent.futures as cf
 import json
